@@ -1,6 +1,7 @@
 package main
 
 import (
+	"sync"
 	"bytes"
 	"context"
 	"fmt"
@@ -155,6 +156,45 @@ func gitExec(c *Ctx, op string) {
 	dst := filepath.Join(base, "dst")
 	wh := []api.WarehouseLocation{api.WarehouseLocation("file://" + repo + "/.git")}
 	id := api.WareID{Type: "git", Hash: target}
+	// ---- a cancellation in the middle of the tree walk: the unpack either fails or delivers the whole tree, and whatever
+	// it leaves in the fileset cache, a later unpack of the same commit (never cancelled) shows the whole tree
+	if len(es) > 2 {
+		os.Setenv("RIO_CACHE", filepath.Join(base, "cache-cancel"))
+		cc := &countdownCtx{Context: context.Background(), left: 2 + int(g.Rand()%uint64(2*len(es)+4)), done: make(chan struct{})}
+		whole := func(dir string) string {
+			sn, _ := Snapshot(dir)
+			have := map[string]bool{}
+			for _, e := range sn {
+				have[e.Name] = true
+			}
+			for _, e := range es {
+				if !have[e[0]] {
+					return e[0]
+				}
+			}
+			return ""
+		}
+		_, cerr, cpan := safeCall(func() (api.WareID, error) {
+			return gittrans.Unpack(cc, id, filepath.Join(base, "dst-c1"), uf, rio.Placement_Copy, wh, rio.Monitor{})
+		})
+		if cpan != "" {
+			c.PropFail("git-panic", "cancelled unpack: "+cpan, op)
+		} else if cerr == nil {
+			if m := whole(filepath.Join(base, "dst-c1")); m != "" {
+				c.PropFail("git-cancel-truncated", fmt.Sprintf("an unpack cancelled during the tree walk reported success but %q of the commit's tree is missing", m), op)
+			}
+		}
+		_, c2err, c2pan := safeCall(func() (api.WareID, error) {
+			return gittrans.Unpack(context.Background(), id, filepath.Join(base, "dst-c2"), uf, rio.Placement_Copy, wh, rio.Monitor{})
+		})
+		if c2pan == "" && c2err == nil {
+			if m := whole(filepath.Join(base, "dst-c2")); m != "" {
+				c.PropFail("git-cancel-truncated", fmt.Sprintf("after an earlier cancelled unpack of the same commit, an uncancelled unpack through the cache lacks %q", m), op)
+			}
+		}
+		c.H(fmt.Sprintf("git-cancel:%v", cerr == nil))
+		os.Setenv("RIO_CACHE", filepath.Join(base, "cache"))
+	}
 	_, uerr, upan := safeCall(func() (api.WareID, error) {
 		return gittrans.Unpack(context.Background(), id, dst, uf, rio.Placement_Direct, wh, rio.Monitor{})
 	})
@@ -350,6 +390,30 @@ func gitExec(c *Ctx, op string) {
 }
 
 // firstBlobPath: some path of the commit's tree that is a blob ("" if none)
+// countdownCtx is cancelled at its n-th Err() poll (rio's walkers poll ctx.Err() per entry)
+type countdownCtx struct {
+	context.Context
+	mu   sync.Mutex
+	left int
+	done chan struct{}
+}
+
+func (c *countdownCtx) Err() error {
+	c.mu.Lock()
+	defer c.mu.Unlock()
+	if c.left > 0 {
+		c.left--
+		if c.left == 0 {
+			close(c.done)
+		}
+	}
+	if c.left == 0 {
+		return context.Canceled
+	}
+	return nil
+}
+func (c *countdownCtx) Done() <-chan struct{} { return c.done }
+
 func firstBlobPath(repo, commit string) string {
 	out, err := gitCmd(repo, "ls-tree", "-r", "--name-only", "-z", commit)
 	if err != nil {
